@@ -79,6 +79,10 @@ def check(ctx, case):
         from unified_planning.exceptions import UPProblemDefinitionError, UPTypeError
 
         # whether the writer can express the problem at all is C18's subject; C38 is about the names
+        from unified_planning.exceptions import UPProblemDefinitionError, UPTypeError, UPUnreachableCodeError
+
+        if not isinstance(e, (UPProblemDefinitionError, UPTypeError, UPUnreachableCodeError)):
+            raise Violation(f"pddl-writer-exception:{type(e).__name__}", f"{e!r}", case)
         dom = prb = None
         ctx.cls("pddl-writer-rejected:" + type(e).__name__)
     if dom is not None:
